@@ -18,6 +18,7 @@ fires answers what it answers in a fresh state".
 """
 import json
 import os
+import re
 import shutil
 import tempfile
 
@@ -735,10 +736,103 @@ def clipath_check(run, binary, root, failures, model_diffs):
                              "expected": exp, "got": got or o})
 
 
+SOURCE_STEPS = {
+    "gen_new_bytes": "lib.rs FileData::new_bytes",
+    "gen_get_string": "lib.rs FileData::get_string",
+    "gen_import_resolved_str": "lib.rs State::import_resolved_str",
+    "gen_import_resolved_bin": "lib.rs State::import_resolved_bin",
+    "gen_begin_import": "lib.rs State::import_resolved (up to evaluate)",
+    "gen_finish_import": "lib.rs State::import_resolved (after evaluate: flag reset, value cached)",
+    "gen_resolve_from": "import.rs FileImportResolver::resolve_from (search order)",
+    "gen_search_list": "cli lib.rs MiscOpts::import_resolver (-J reversed, then JSONNET_PATH)",
+}
+
+
+def source_tie_obligations(run, terrs, proofs_ok, detail):
+    """one obligation per translated function: GenImport.v was produced from this tree (no translate error)
+    and the C07_model_is_translated_source_* theorems about it compiled.  Returns True when the tie is broken
+    (then the targeted histories below are the concrete inputs to look at first)."""
+    stale = [m for n, m in terrs if n == "GenImport"]
+    path = os.path.join(core.COQ, "theories", "Gen", "GenImport.v")
+    txt = open(path, encoding="utf-8").read() if os.path.exists(path) else ""
+    src_broken = bool(stale) or (not proofs_ok and ("Source" in detail or "GenImport" in detail))
+    for d, where in SOURCE_STEPS.items():
+        present = re.search(rf"^Definition {d}\b", txt, re.M) is not None
+        why = ""
+        if stale:
+            why = "translator/gens/importsm.py rejected the source: " + stale[0][:300]
+        elif not present:
+            why = "not emitted"
+        elif src_broken:
+            why = "the translated step is no longer the model step: " + detail[:300]
+        run.obligation(f"C07.source.{d} ({where}) is the model step", not why, why)
+    if stale:
+        run.log("source tie: " + stale[0][:300])
+    return src_broken
+
+
+def targeted_layouts():
+    """operation histories aimed at the translated steps: failing imports retried (flag reset on the error
+    path), strict cycles then the same files again, non-UTF-8 files through the three import kinds in every
+    order, one file through import / importstr / importbin when one of them breaks, the importer's directory
+    against one and two library directories holding the same name"""
+    out = []
+
+    def mk(files, ops, libs=(), dirs=(("main",), ("lib1",), ("lib2",), ("main", "sub"))):
+        L = Layout()
+        L.shape = "targeted"
+        L.dirs = set(dirs)
+        L.libs = list(libs)
+        nid = [0]
+        for p, content in files.items():
+            p = tuple(p.split("/"))
+            if isinstance(content, bytes):
+                L.files[p] = L.add_blob(content)
+            else:
+                nid[0] += 1
+                bd = {"id": 7000 + len(out) * 10 + nid[0], "strict": content[0], "lazy": content[1]}
+                L.files[p] = L.add_blob(body_source(bd), bd)
+        L.ops = [{"kind": k, "path": p, "sel": s, "from": "default"} for k, p, s in ops]
+        L.ops = L.ops + [dict(o) for o in L.ops]
+        L.idx = 200000 + len(out)
+        out.append(L)
+
+    imp = lambda p, s="v": ("import", p, s)  # noqa
+    kinds = ["import", "importstr", "importbin"]
+    # a body that fails (missing / non-UTF-8 / syntactically broken nested file), retried, then its parts alone
+    for bad in ({}, {"main/x.jsonnet": b"\xff\xfe{"}, {"main/x.jsonnet": b"{ v: "}):
+        for k in kinds:
+            files = {"main/a.jsonnet": ([(k, "x.jsonnet", "v")], []), "main/b.jsonnet": ([imp("a.jsonnet")], []),
+                     "main/ok.jsonnet": ([], [])}
+            files.update(bad)
+            mk(files, [imp("a.jsonnet"), imp("b.jsonnet"), imp("a.jsonnet"), imp("ok.jsonnet"),
+                       ("importstr", "a.jsonnet", "v"), ("importbin", "a.jsonnet", "v")])
+    # strict cycles entered from every member, then again
+    mk({"main/a.jsonnet": ([imp("a.jsonnet")], [])}, [imp("a.jsonnet"), ("importstr", "a.jsonnet", "v"), imp("a.jsonnet")])
+    mk({"main/a.jsonnet": ([imp("b.jsonnet")], []), "main/b.jsonnet": ([imp("ok.jsonnet"), imp("a.jsonnet")], []),
+        "main/ok.jsonnet": ([], [])},
+       [imp("b.jsonnet"), imp("a.jsonnet"), imp("ok.jsonnet"), imp("b.jsonnet")])
+    # one file through the three kinds in every order; valid and invalid UTF-8, and a body
+    import itertools
+    for content in (b"caf\xc3\xa9 \xe2\x82\xac", b"\xc3\x28 bad", ([], [])):
+        for order in itertools.permutations(kinds):
+            mk({"main/t.jsonnet": content}, [(k, "t.jsonnet", "v") for k in order])
+    # search order: importer's directory, then the library list in order
+    for libs in (["lib1"], ["lib1", "lib2"], ["lib2", "lib1"]):
+        for where in (["main", "lib1", "lib2"], ["lib1", "lib2"], ["lib2"], ["main/sub", "lib1"], ["main/sub", "lib2", "lib1"]):
+            files = {f"{d}/x.jsonnet": ([], []) for d in where}
+            files.update({f"{d}/t.txt": f"in {d}".encode() for d in where})
+            files["main/sub/a.jsonnet"] = ([imp("x.jsonnet"), ("importstr", "t.txt", "v")], [])
+            files["lib1/y.jsonnet"] = ([imp("x.jsonnet")], [])
+            mk(files, [imp("x.jsonnet"), imp("sub/a.jsonnet"), imp("y.jsonnet"), ("importstr", "t.txt", "v"),
+                       ("importbin", "t.txt", "v")], libs=libs)
+    return out
+
+
 def make_layouts(run):
     rng = run.rng.fork("layouts")
     n = 2000 if run.tier == "thorough" else 360
-    return fixed_layouts() + [gen_layout(rng.fork(i), i + 1) for i in range(n)]
+    return fixed_layouts() + targeted_layouts() + [gen_layout(rng.fork(i), i + 1) for i in range(n)]
 
 
 def check(run, terrs):
@@ -747,9 +841,21 @@ def check(run, terrs):
     if not binary:
         run.obligation("harness.build", False, err)
         return core.conclude(run, False, err, [], [])
+    src_broken = source_tie_obligations(run, terrs, proofs_ok, detail)
     root = os.path.realpath(tempfile.mkdtemp(prefix="c07-", dir=core.CACHE))
     try:
-        failures, model_diffs = correspond(run, binary, make_layouts(run), root)
+        failures, model_diffs = [], []
+        if src_broken:
+            # the translated step functions no longer are the model's: the histories aimed at them first
+            run.log("source tie broken: targeted histories first")
+            tl = targeted_layouts()
+            for L in tl:
+                L.idx += 100000
+            failures, model_diffs = correspond(run, binary, tl, root)
+            run.log(f"targeted histories: {len(failures)} failing, {len(model_diffs)} model/code differences")
+        f1, d1 = correspond(run, binary, make_layouts(run), root)
+        failures += f1
+        model_diffs += d1
         clipath_check(run, binary, root, failures, model_diffs)
         run.trusted = TRUSTED
         if os.environ.get("C07_DEBUG"):
@@ -825,7 +931,10 @@ RULE = ("layouts of 2-5 logical Jsonnet files (dag / diamond / strict 2- and 3-c
         "with no fault, single faults at sampled resolver-call indices (thorough: every index) and pairs. "
         "distinct = distinct (layout, history, fault set); all are non-trivial")
 TRUSTED = ["Coq 8.16.1 kernel incl. vm_compute",
-           "no axioms (all C07 theorems closed under the global context)",
+           "Properties.v: no axioms; PropertiesSource.v: FunctionalExtensionality.functional_extensionality_dep only",
+           "translator/gens/importsm.py (reads the cache / resolver functions statement by statement; fails closed on "
+           "anything else) and its reading of the Rust subset (write-through of assignments behind `&mut FileData`, "
+           "Entry::Occupied/Vacant = cache lookup, `?` = early error exit, Option fields = presence flags)",
            "jrharness imports (recording / fault-injecting ImportResolver wrapper, LogTrace), vlib generators, "
            "Coq term printer/parser",
            "modelled not verified: the OS (metadata / canonicalize / read) as the finite-map walk of Model.v; "
@@ -833,7 +942,9 @@ TRUSTED = ["Coq 8.16.1 kernel incl. vm_compute",
            "files (left-to-right +, assert, lazy object fields) as [run]",
            "async_import.rs is not exercised"]
 ASSUMPTIONS = ["impl-model transliterates import.rs resolve_from/check_path, cli lib.rs import_resolver, lib.rs "
-               "FileData + import_resolved(_str/_bin), obj/mod.rs field cache; tie = differential run on every "
+               "FileData + import_resolved(_str/_bin), obj/mod.rs field cache; tie = (a) the translated step functions "
+               "of Gen/GenImport.v proved equal to the model's steps (C07_model_is_translated_source_*; check_path, "
+               "the field cache and the evaluation of file bodies stay hand-written), (b) differential run on every "
                "check (results + full resolve/load/trace log)",
                "file system does not change during a history",
                "processes run as root here: unreadable files are exercised through injected load faults only"]
